@@ -1055,6 +1055,13 @@ class PX:
             # a constant array of scalars (also when it is a named const): the array value
             return agg("array", None, None, tuple((str(i), const(x)) for i, x in enumerate(o["array_ints"])))
         if "named" in o:
+            # a named constant the driver could not decode to a scalar / string / array, but whose initializer is a
+            # straight-line constructor call with a single-valued model (`HeaderValue::from_static("gzip")`): that value
+            b = self.facts.bodies.get(o["named"])
+            if b is not None and b.get("kind") == "promoted":
+                v = self.promoted_value(o["named"])
+                if v is not None:
+                    return v
             return ("named", o["named"])
         if "promoted" in o:
             pname = "%s::promoted[%d]" % (o["promoted_of"], o["promoted"])
